@@ -102,6 +102,8 @@ def make_F(prob, cfg, rec):
     def F(x=None, z=None):
         if x is None:
             rec['calls'].append(('F0', None, True))
+            if cfg.get('persistent_x0') is not None:
+                return mnl, cfg['persistent_x0']        # the caller's own start-point object, handed out at every F()
             return mnl, cvx.dmat(prob['x0'])
         xl = list(x)
         v = feval(prob, xl)
